@@ -11,7 +11,7 @@ from ..report import Ctx
 from ..skelrules import check_skeleton
 
 PROP = "C04"
-FLOORS = {"C04-A1": 15, "C04-A2": 2, "C04-A3": 6, "C04-A4": 3, "C04-A5": 13}
+FLOORS = {"C04-A1": 15, "C04-A2": 2, "C04-A3": 6, "C04-A4": 3, "C04-A5": 13, "C04-A6": 2}
 
 EXPLANATION = (
     "Decided as algebraic identities in n on maps extracted from the source (hence for every size): (a) reverse, complement, inverse, the rotations and "
@@ -45,6 +45,11 @@ def run(ctx: Ctx) -> None:
     ctx.run(rule_a3, ctx, po, mo)
     ctx.run(rule_a4, ctx, po, mo)
     ctx.run(rule_a5, ctx, po)
+    # A6: the set-level helpers take any iterable (annotated Iterable[Perm]); a one-shot iterator handed to them must not be
+    # consumed twice, or the orbit / canonical representative is computed from an exhausted iterator
+    from .. import oneshot
+
+    ctx.run(oneshot.report, ctx, "C04-A6", ["permuta.permutils.symmetry"], ("all_symmetry_sets", "lex_min"))
     ctx.assume("a permutation is the point set {(i, self[i])}; Perm(result) with result[A] = B for every point places the point (A, B)")
 
 
@@ -546,6 +551,9 @@ def _variants():
 
     PE, MP, SY = "permuta/patterns/perm.py", "permuta/patterns/meshpatt.py", "permuta/permutils/symmetry.py"
     return [
+        V("orbit-keeps-one-shot-iterable", replace_expr(SY, "all_symmetry_sets", "isinstance(perms, list)", "isinstance(perms, Iterable)"), "fire", "C04-A6"),
+        V("orbit-sequence-test", replace_expr(SY, "all_symmetry_sets", "isinstance(perms, list)", "isinstance(perms, (list, tuple))"), "silent"),
+        V("orbit-no-copy", replace_stmt(SY, "all_symmetry_sets", "perms = perms if isinstance(perms, list) else list(perms)", ""), "fire", "C04-A6"),
         V("perm-rotate1-wrong", replace_stmt(PE, "Perm.rotate", "result[val] = n - idx - 1", "result[n - val - 1] = idx"), "fire", "C04-A1"),
         V("perm-complement-off-by-one", replace_stmt(PE, "Perm.complement", "base = len(self) - 1", "base = len(self)"), "fire", "C04-A1"),
         V("perm-antidiagonal-is-inverse", replace_expr(PE, "Perm.flip_antidiagonal", "((n - val - 1, n - idx - 1) for idx, val in enumerate(self))", "((val, idx) for idx, val in enumerate(self))"), "fire", "C04-A1"),
